@@ -144,6 +144,9 @@ func C05Stats(sc *Scenario, res *Result) (classes []string, runningAtStop int) {
 				classes = append(classes, "service_worker_in_backoff_at_stop")
 			}
 		}
+		if m.Start.FaultTimes > 0 && len(m.Start.Launch) > 0 {
+			classes = append(classes, "start_launches_work_then_fails_then_retried")
+		}
 	}
 	add := func(c string) {
 		if !seen[c] {
@@ -170,6 +173,8 @@ func C05Stats(sc *Scenario, res *Result) (classes []string, runningAtStop int) {
 			add("point_reached_" + e.Info)
 		case "launch-incomplete":
 			add("launch_incomplete")
+		case "sigstorm-done":
+			add("sigstorm_done_called_concurrently")
 		case "poststop-probe":
 			add("poststop_probe")
 		case "api":
